@@ -4,6 +4,7 @@ package checks
 import (
 	"bytes"
 	"fmt"
+	"io"
 	"path/filepath"
 	"reflect"
 	"runtime"
@@ -133,6 +134,41 @@ func EncodeFresh(msg any) ([]byte, error, *mon.Panic) {
 // servicesAbsent is set in the "checksum services unregistered" re-run of a check: a frame then carries the
 // caller's checksum value through unchanged (that is what the generated encoders do), only the length is computed.
 var servicesAbsent bool
+
+// drainSvc wraps a registered checksum service: same algorithm name, same function of the bytes, but the
+// buffer handed to Calc is read to its end first (io.ReadAll), as a service built on io.Copy would do.
+type drainSvc[R any] struct {
+	name  string
+	inner codec.ChecksumService[*bytes.Buffer, R]
+}
+
+func (d *drainSvc[R]) Algorithm() string { return d.name }
+func (d *drainSvc[R]) Calc(data *bytes.Buffer) R {
+	b, _ := io.ReadAll(data)
+	return d.inner.Calc(bytes.NewBuffer(b))
+}
+
+func installDrainingServices() {
+	for _, name := range []string{"CRC16", "CRC32", "SSE_BIN", "SZSE_BIN"} {
+		svc, ok := codec.Get(name)
+		if !ok {
+			continue
+		}
+		var repl any
+		switch s := svc.(type) {
+		case codec.ChecksumService[*bytes.Buffer, uint16]:
+			repl = &drainSvc[uint16]{name, s}
+		case codec.ChecksumService[*bytes.Buffer, uint32]:
+			repl = &drainSvc[uint32]{name, s}
+		case codec.ChecksumService[*bytes.Buffer, int32]:
+			repl = &drainSvc[int32]{name, s}
+		default:
+			continue
+		}
+		codec.Remove(name)
+		codec.Registry(repl)
+	}
+}
 
 // frameInfo describes the self-computed fields of a frame type.
 type frameInfo struct {
